@@ -47,6 +47,10 @@ impl DynamicConstraintsEncoder {
     }
 
     pub fn new_argument<T: LabelType>(&mut self, af: &mut AAFramework<T>, label: T) {
+        if af.argument_set().get_argument(&label).is_ok() {
+            // adding an argument that is already present is a no-op
+            return;
+        }
         af.new_argument(label);
         let arg_id = af.max_argument_id().unwrap();
         let solver_var = self.new_solver_var(SolverVarType::Argument(arg_id));
